@@ -3,6 +3,9 @@
 import json, sys
 
 CHECKS = {
+ "C20": dict(cat="exploration", tech="metamorphic relation over processes: proptest-generated scenarios (C01/C02/C05/C07 generators) each executed in 4 fresh processes under different temp roots, lstat snapshots of all outputs compared byte for byte after path normalisation",
+   text="Every scenario (detect with a generated plan; one or two consecutive builds running generated layer-operation scripts through both layer APIs and returning generated launch/store/SBOM results) is run in four separate processes with independent hash seeds under temp roots of different length; the relative snapshots of <layers> after every build and the build plan must be pairwise identical.",
+   note="Iteration-order leaks are detected probabilistically (miss probability <= 1/8 per scenario with >= 2 elements); hash seeds are sampled by spawning processes, not enumerated."),
  "C05": dict(cat="exploration", tech="exhaustive enumeration of all single-dimension deviations plus proptest sampling of the configuration product, each row executed as a real process (scripted buildpack through a symlinked executable name) and judged by an independent decision table over exit code, entry markers, decoded outputs and a snapshot differential",
    text="Rows over executable name x argument count x buildpack.toml variants x presence of each CNB_* variable x scripted detect/build behaviour x pre-existing outputs x input faults are run for real; the decision table says whether buildpack code may be reached, which exit codes are allowed, how often the error handler runs, which output files must be written (decoded with tomllib and compared with the scripted result) and that everything else is byte-identical.",
    note="`trace` feature off; argv/paths UTF-8; missing CNB_TARGET_DISTRO_* accepted either as not reaching buildpack code or as behaving normally; the decision table is the harness's reading of the buildpack API spec."),
